@@ -1,13 +1,17 @@
 import gfapy
 import re
 
-def decode(string):
+def unsafe_decode(string):
   try:
     return float(string)
   except:
-    raise gfapy.FormatError
+    raise gfapy.FormatError(
+      "{} does not represent a valid float".format(repr(string)))
 
-unsafe_decode = decode
+def decode(string):
+  # float() accepts more than the GFA syntax (e.g. "inf", "nan", "1_0")
+  validate_encoded(string)
+  return unsafe_decode(string)
 
 def validate_decoded(integer):
   pass
